@@ -151,6 +151,36 @@ CHECKS = {
 
 NOT_YET = {}
 
+# generators of CIRCUMSTANCES added after the seeding rounds (DESIGN.md 11.1-11.3); the deciding step stays generated-input
+# search against the oracles named above
+COMMON = (
+    "; runner-level invariants on every generated case (process-wide state unchanged, exceptions raised by the code under "
+    "test are violations, native crashes of worker processes are confirmed in a fresh interpreter)"
+)
+EXTRA = {
+    "C01": "; histories with refused throws, idempotent reads, overlapping throws on two objects under a harness-owned thread schedule; child interpreters (python -O, switched astropy constants version)",
+    "C02": "; histories with refused throws and overlapping throws (harness-owned thread schedule); distances in every numeric dtype; child interpreters (python -O, switched astropy constants version)",
+    "C03": "; refused throws and sibling batches before the evaluation; explicit instants within a second of a dark-sky transition found by bisection; child interpreters",
+    "C04": "; overlapping calls on one / two objects under a harness-owned thread schedule; child interpreters under python -O / -OO",
+    "C05": "; memory layouts of the inputs; overlapping calls under a harness-owned thread schedule; child interpreters under python -O / -OO",
+    "C06": "; libFuzzer + AddressSanitizer + UBSan target for the C++ step function with an in-target long-double oracle; long-lived kernel objects (more distinct events than any cache size in the source, then revisits); out-of-domain events before the batch",
+    "C07": "; block-edge and source-harvested batch sizes; memory layouts and float32 inputs; overlapping calls under a harness-owned thread schedule",
+    "C08": "; live configuration edits at every level; cloud decks and low detectors in every run; overlapping stage calls under a harness-owned thread schedule",
+    "C09": "; pickled copies after configuration edits; 26 model objects alive at once; compact event regions",
+    "C10": "; harness-owned two-worker scheduler with generated and exhaustively enumerated pre-emption points; double-precision (hook) kernels; pickled-copy state",
+    "C11": "; history ops: refused calls, memory layouts, float32 inputs, object churn, overlapping calls (generated and exhaustively enumerated pre-emption points)",
+    "C12": "; block-edge and source-harvested sample counts; live configuration edits at every level; child interpreters under python -O / -OO",
+    "C13": "; explicit fractions after a whole-grid throw; sub-millisecond start times; other time scales; source-harvested block lengths; child interpreters in other time zones",
+    "C14": "; earlier run differing in exactly one configuration field, both sides in fresh interpreters",
+    "C15": "; atheris / libFuzzer target for the TOML reader; child interpreters without a UTF-8 locale and under python -O",
+    "C16": "; same output path overwritten; second generation of a results file with a harness-owned clock; run command and show-plot loader paths",
+    "C17": "; BaseException stage faults; interrupted runs with staging disabled; directory-tree listings",
+    "C18": "; model-based history on one HDF5 file with nested paths and overwrites; axes stored descending / rotated; slices written to files",
+    "C19": "; every integer dtype; memory layouts; block-edge sizes; first call of the process overlapped by a second thread in fresh interpreters (one per pre-emption point)",
+    "C20": "; live re-tuning at every level with a transient I/O fault and retry; float32 event arrays; non-finite companions of out-of-range events",
+}
+
+
 def main():
     props = [json.loads(l) for l in open(os.path.join(HERE, "properties.jsonl"))]
     checks = []
@@ -159,6 +189,7 @@ def main():
         pid = p["id"]
         if pid in CHECKS:
             cat, tech, text, note, ref = CHECKS[pid]
+            tech = tech + EXTRA.get(pid, "") + COMMON
             checks.append(
                 {
                     "property_id": pid,
@@ -191,7 +222,7 @@ def main():
                 "name": "nssverif",
                 "path": "/verif/nssverif",
                 "serves_properties": sorted(CHECKS),
-                "kind_free_text": "Hypothesis-driven property-based testing harness (seeded from VERIF_SEED, sharded over processes, shrinking to JSON replay files) with independent reference oracles, scripted numpy.random, harness-owned dask schedules and fault injection",
+                "kind_free_text": "Hypothesis-driven property-based testing harness (seeded from VERIF_SEED, sharded over processes, shrinking to JSON replay files) with independent reference oracles, scripted numpy.random, harness-owned dask schedules and thread pre-emption points, fault injection, child interpreters with other process environments, and two coverage-guided fuzz targets (atheris for the TOML reader, libFuzzer + ASan/UBSan for the C++ step function)",
             }
         ],
         "checks": checks,
